@@ -618,7 +618,10 @@ def gen_hist(rng):
                 if kind == "isub" and rng.random() < 0.3:
                     ts.append(new_triple())      # subtracting an absent triple changes nothing
         if kind == "add":
-            ts = [rng.choice(content) if content and rng.random() < 0.15 else new_triple()]
+            # re-adding a triple that is already there must change nothing; like remove / -=, only triples whose blank
+            # nodes the caller can name (not those of a parsed / inserted document) can be offered
+            known = [t for t in content if not any(is_b(x) and x.startswith("_:p") for x in t)]
+            ts = [rng.choice(known) if known and rng.random() < 0.15 else new_triple()]
         elif kind in ("iadd", "addN"):
             ts = [new_triple() for _ in range(rng.randint(1, 3))]
         elif kind in ("parse", "update"):
